@@ -84,8 +84,6 @@ def expressible_10(node):
             return all(c[0] in 'eht' and M.occ(c) in ((0, 1), (1, 1)) for c in n[1])
         if M.is_group(n):
             return all(ok(c, False) for c in n[1])
-        if n[0] == 'r':
-            return False     # only used for the 1.1 two-heads configuration
         if n[0] == 'w' and (M.con_base(n[1]) in M.NOT_ATTR or '~' in n[1]):
             return False     # notNamespace is XSD 1.1
         return True
